@@ -71,6 +71,19 @@ class vc12_md2(Response):
 
 
 CUSTOM = [vc12_keyed, vc12_nokey, vc12_unset, vc12_pass2, vc12_md2]
+
+
+# component types DERIVED from `rule` (one and two levels, the second with attributes of its own): their rules are rules
+class audit_rule(plugins.rule):
+    pass
+
+
+class audit_rule2(audit_rule):
+    content_type = "text/vnd.audit"
+    links = {"docs": ["https://example.invalid/audit"]}
+
+
+RULE_TYPES = {"rule": plugins.rule, "audit": audit_rule, "audit2": audit_rule2}
 GENERIC = {c.__name__: c for c in (plugins.make_fail, plugins.make_response, plugins.make_pass, plugins.make_info,
                                    plugins.make_fingerprint)}
 GENERIC.update({c.__name__: c for c in CUSTOM})
@@ -618,7 +631,7 @@ class RuleSet(object):
         c = r.get("content")
         if c and c["where"] == "kwarg":
             kw["content"] = content_value(c, r["act"])
-        return plugins.rule(*items, **kw)(fn)
+        return RULE_TYPES[r.get("rtype", "rule")](*items, **kw)(fn)
 
     def broker(self):
         b = dr.Broker()
@@ -1341,6 +1354,9 @@ def gen_case(rng, quick, mode=None, islands=False, shared_names=True):
         rng.shuffle(show)
         fmts.append({"kind": kind, "missing": rng.random() < 0.5, "fail_only": rng.random() < 0.2, "show": show,
                      "render": render})
+    for r in rules:
+        if rng.random() < 0.25:
+            r["rtype"] = rng.choice(["audit", "audit2"])
     if shared_names and len(rules) >= 2 and rng.random() < 0.6:
         # 2-5 DISTINCT rules under one fully qualified name (one or two such names), next to uniquely named ones
         free = list(range(len(rules)))
@@ -2020,13 +2036,22 @@ def default_graph_child():
     fails = []
     stats = {}
     try:
+        # a fresh interpreter: nothing has registered a plain @rule yet, so the order in which the case's rules are
+        # defined IS the registration order of the rule types (derived first / plain first / only derived)
+        stats["load-order:%s" % case.get("load_order", "as-generated")] = 1
+        stats["load-order:plain rules registered before the case"] = len(dr.COMPONENTS_BY_TYPE.get(plugins.rule, ()))
         rs = RuleSet(case)
         with Limit(case["limit"]):
             for cls_name in sorted(EVALUATORS):
+                for inc in (False, True):          # the case's own graph
+                    run_mode(rs, fails, cls_name, inc, False, rs.graph, None, None)
                 ref = run_mode(rs, fails, cls_name, False, False, None, None, None)
                 for inc, par in RUN_MODES:
                     run_mode(rs, fails, cls_name, inc, par, None, ref[0] if ref else None, ref[1] if ref else None)
-        stats = dict(rs.stats)
+        stats.update(rs.stats)
+        for r in case["rules"]:
+            k = "load-order:%s rules of type %s" % (case.get("load_order", "as-generated"), r.get("rtype", "rule"))
+            stats[k] = stats.get(k, 0) + 1
         stats["default-graph:components"] = len(dr.COMPONENTS[dr.GROUPS.single])
         stats["default-graph:subgraphs"] = len(list(dr.get_subgraphs(dr.COMPONENTS[dr.GROUPS.single])))
     except Exception as ex:
@@ -2181,6 +2206,11 @@ def run(chk):
                  "groups of 2-5 DISTINCT rules under ONE fully qualified name (module.make_rule_N.<locals>.reportX, as a "
                  "factory's closures have) with different keys / types / dependency situations, next to uniquely named rules; "
                  "outcomes are counted per rule OBJECT (shared-name:* counts)")
+    chk.rule += ("; a quarter of the rules are of component types DERIVED from rule (audit_rule(rule), audit_rule2(audit_rule) "
+                 "with content_type / links of its own); in the fresh child interpreters — where importing insights has "
+                 "registered no plain rule — the rule types are registered derived-first, plain-first or only-derived "
+                 "(load-order:* counts) and every class evaluates the case's own graph serially and incrementally as well as "
+                 "graph=None")
     chk.assumptions = [
         "the body of a rule is a fixed action (it does not look at its arguments); argument binding is C02's subject",
         "repr() of str is modelled for ASCII exactly and takes code points >= 0xa1 other than U+00AD as printable; values inside responses are None/bool/int/str/list of str",
@@ -2219,8 +2249,24 @@ def run(chk):
                     {"kind": "yaml-adapter"})
 
     # ---- graph=None (the default group graph): children, started now and collected at the end
-    n_child = 3 if quick else 24
-    child_cases = [dict(gen_case(rng, quick, islands=True), fmts=[]) for _ in range(n_child)]
+    n_child = 6 if quick else 36
+    child_cases = []
+    for i in range(n_child):
+        c = dict(gen_case(rng, quick, islands=True), fmts=[])
+        # registration order of the rule types in the fresh interpreter (rules are defined in id order)
+        order_kind = ["derived-first", "plain-first", "only-derived"][i % 3]
+        n = len(c["rules"])
+        k = max(1, n // 2)
+        for j, r in enumerate(c["rules"]):
+            derived = rng.choice(["audit", "audit2"])
+            if order_kind == "only-derived":
+                r["rtype"] = derived
+            elif order_kind == "derived-first":
+                r["rtype"] = derived if j < k else "rule"
+            else:
+                r["rtype"] = "rule" if j < k else derived
+        c["load_order"] = order_kind
+        child_cases.append(c)
     children = []
     for i, c in enumerate(child_cases):
         if i < 6:
@@ -2449,6 +2495,8 @@ def run(chk):
         for k, v in res["stats"].items():
             if k.startswith("default-graph:"):
                 chk.extra[k] = v
+            elif k.startswith("load-order:"):
+                chk.count(k, v)
             else:
                 chk.count("default-graph " + k, v)
         chk.case(("default-graph", J(c)), True)
